@@ -297,11 +297,25 @@ func randomHistory(en *Env, i int, stats map[string]int) {
 		ops = 10
 	}
 	cfg := h.Cfg{Index: h.IndexTypes[i%3], Shards: []int{1, 2, 16}[r.Intn(3)], IO: h.IOTypes[(i/3)%2], Limit: []int64{300, 2000, 1 << 20}[r.Intn(3)], Sync: h.SyncKinds[(i/2)%3], BPS: 64}
-	e := openFresh(en, cfg, 3)
+	// every fourth history is read-heavy over values of 20-50 KB in one large file: the keys then live in
+	// different 32 KiB blocks of the same file and concurrent readers fetch different blocks at the same time
+	readHeavy := i%4 == 1
+	nk := 3
+	if readHeavy {
+		nk = 6
+		cfg.Limit = 1 << 22
+	}
+	e := openFresh(en, cfg, nk)
 	if e == nil {
 		return
 	}
 	rec := &recorder{}
+	if readHeavy {
+		for k := 1; k <= nk; k++ {
+			id, _ := e.V.New(20000 + r.Intn(30000))
+			rec.do(e, 99, "Put", k, id)
+		}
+	}
 	// random perturbation at the schedule points (PCT style): yield or sleep a little
 	var pr sync.Mutex
 	prnd := rand.New(rand.NewSource(r.Int63()))
@@ -338,7 +352,11 @@ func randomHistory(en *Env, i int, stats map[string]int) {
 	vals := make([][]int, nclients)
 	for c := 0; c < nclients; c++ {
 		for j := 0; j < ops; j++ {
-			id, _ := e.V.New(8 + r.Intn(40))
+			ln := 8 + r.Intn(40)
+			if readHeavy {
+				ln = 20000 + r.Intn(30000)
+			}
+			id, _ := e.V.New(ln)
 			vals[c] = append(vals[c], id)
 		}
 	}
@@ -357,8 +375,12 @@ func randomHistory(en *Env, i int, stats map[string]int) {
 			defer wg.Done()
 			cr := rand.New(rand.NewSource(seeds[c]))
 			for j := 0; j < ops; j++ {
-				k := 1 + cr.Intn(3)
-				switch x := cr.Intn(10); {
+				k := 1 + cr.Intn(nk)
+				x := cr.Intn(10)
+				if readHeavy && x < 6 && cr.Intn(4) != 0 {
+					x = 9
+				}
+				switch {
 				case x < 4:
 					rec.do(e, c+1, "Put", k, vals[c][j])
 				case x < 6:
